@@ -5,6 +5,7 @@ import Plonk.Driver.Prog
 import Plonk.Driver.Kernels
 import Plonk.Driver.Crypto
 import Plonk.Model.Compress
+import Plonk.Model.Packed
 open Plonk Plonk.Driver
 
 def dumpState (s : PState) : String :=
@@ -16,6 +17,18 @@ def dumpState (s : PState) : String :=
     let ws := c.wit.toList.map toHex
     let ps := (sortedPis c).map fun p => s!"{p.1}:{toHex p.2}"
     s!"G {String.intercalate "|" gs} W {String.intercalate "," ws} P {String.intercalate "," ps} R {String.intercalate "," (s.rets.toList.map toString)}"
+
+def pbytesHex (bs : List Nat) : String :=
+  String.ofList (bs.flatMap fun b => [hexChar (b / 16), hexChar (b % 16)])
+
+def pparseBytes? (s : String) : Option (List Nat) :=
+  let rec go : List Char → List Nat → Option (List Nat)
+    | [], acc => some acc.reverse
+    | [_], _ => none
+    | a :: b :: r, acc => match hexDigit? a, hexDigit? b with
+      | some x, some y => go r ((x * 16 + y) :: acc)
+      | _, _ => none
+  go s.toList []
 
 def answer (line : String) : String :=
   let line := line.trimAscii.toString
@@ -34,6 +47,19 @@ def answer (line : String) : String :=
   | "cmpsnap" :: rest =>
     let s := runProg (String.intercalate " " rest)
     if s.bad.isSome then "bad-op" else summary { s with c := decompressCompress s.c, regs := #[], rets := #[] }
+  | "packc" :: rest =>
+    -- the MessagePack payload `Circuit::compress()` deflates, for the program's circuit
+    let s := runProg (String.intercalate " " rest)
+    if s.bad.isSome then "bad-op" else pbytesHex (Packed.compressPayload s.c)
+  | ["unpackc", mx, hex] =>
+    -- `CompressedCircuit::from_bytes` on an INFLATED payload
+    match mx.toNat?, pparseBytes? (if hex == "-" then "" else hex) with
+    | some mx, some bs =>
+      match Packed.fromPayload bs mx with
+      | .ok c => "ok " ++ summary { (runProg "") with c := c, regs := #[], rets := #[] }
+      | .error .invalid => "err:InvalidCompressedCircuit"
+      | .error .scalarMalformed => "err:BlsScalarMalformed"
+    | _, _ => "bad-request"
   | ["maxcons", d] => match d.toNat? with
     | some d => toString (maxConstraints d)
     | none => "bad-request"
